@@ -172,6 +172,21 @@ func (p *parser) checkedDeclaration() ast.Statement {
 	return stmt
 }
 
+// parses the single (non-block) statement that forms the body of an if, else or loop
+// alias declarations are not Ast Nodes (checkedDeclaration returns nil for them) and are only allowed globally
+func (p *parser) singleStatement() ast.Statement {
+	start := p.peek()
+	stmt := p.checkedDeclaration()
+	if stmt == nil {
+		p.err(ddperror.SEM_ALIAS_MUST_BE_GLOBAL, token.NewRange(start, p.previous()), "Ein Alias darf nur im globalen Bereich deklariert werden!")
+		stmt = &ast.BadStmt{
+			Err: p.lastError,
+			Tok: *start,
+		}
+	}
+	return stmt
+}
+
 // entry point for the recursive descent parsing
 func (p *parser) declaration() ast.Statement {
 	if p.matchAny(token.DER, token.DIE, token.DAS, token.WIR) { // might indicate a function, variable or struct
